@@ -408,7 +408,7 @@ Lemma path_raw_okb p : p <> [] -> last_indexed p = true ->
 Proof.
   intros Hne Hl Ht. unfold raw_okb. rewrite (path_str_raw p Ht). cbn [andb].
   destruct (path_str_delimited p Hne Hl) as [m ->].
-  rewrite strip_delimited by reflexivity. apply StrProofs.str_eqb_refl.
+  rewrite strip_delimited by reflexivity. rewrite StrProofs.str_eqb_refl. reflexivity.
 Qed.
 
 (* the node tests of getpath are the tests of document nodes *)
@@ -468,7 +468,7 @@ Proof.
     { apply (doc_nodes_iff f root m Hwf) in Hm. eapply desc_lt; [exact Hwf|apply (wf_root_lt _ _ Hwf)|exact Hm]. }
     destruct (proj1 (lab_parts _) (Hlabs m Hlt)) as (A & _).
     destruct (ltag (flab f m)) as [name|]; [|exact I].
-    cbn [tag_okb] in A. unfold raw_okb in A. apply andb_true_iff in A. tauto. }
+    cbn [tag_okb] in A. unfold raw_okb in A. apply andb_true_iff in A as [A _]. apply andb_true_iff in A. tauto. }
   apply path_raw_okb; assumption.
 Qed.
 
